@@ -632,6 +632,13 @@ def ordering_rule(A: Analysis, col: Collector, rule: str):
                     sorted_copy = any(isinstance(c.func, ast.Name) and c.func.id == "sorted" and c.args and isinstance(c.args[0], ast.Name) and c.args[0].id == lst and kwarg(c, "key") is None for c in A.calls(f))
                     if sorted_in_place or sorted_copy:
                         ok = True
+        if not ok and not why:
+            for lp_ in [n for n in walk_own(f.node) if isinstance(n, ast.For) and isinstance(n.iter, ast.Name) and n.iter.id == param]:
+                for c_ in [k for k in ast.walk(lp_) if isinstance(k, ast.Call) and isinstance(k.func, ast.Attribute) and k.func.attr == "append" and isinstance(k.func.value, ast.Name) and k.args]:
+                    if any(q.endswith("hash_single") or q.endswith("bytes_repr") or q.endswith("hash_object") for k in ast.walk(c_.args[0]) if isinstance(k, ast.Call) for q in A.callee_names(k, f)):
+                        lst = c_.func.value.id
+                        if any(isinstance(c.func, ast.Attribute) and c.func.attr == "sort" and isinstance(c.func.value, ast.Name) and c.func.value.id == lst and kwarg(c, "key") is None for c in A.calls(f)):
+                            ok = True
         if why:
             ok = False
         if ok:
@@ -670,6 +677,15 @@ def ordering_rule(A: Analysis, col: Collector, rule: str):
                 canon = c
             else:
                 raw = c
+    if raw is None and canon is None:
+        for lp_ in [n for n in walk_own(m.node) if isinstance(n, ast.For) and _over_param(n.iter)]:
+            for c_ in [k for k in ast.walk(lp_) if isinstance(k, ast.Call) and isinstance(k.func, ast.Attribute) and k.func.attr == "append" and isinstance(k.func.value, ast.Name) and k.args]:
+                first_ = c_.args[0].elts[0] if isinstance(c_.args[0], ast.Tuple) and c_.args[0].elts else c_.args[0]
+                if _serialises(first_):
+                    lst = c_.func.value.id
+                    srt_ = [c for c in A.calls(m) if isinstance(c.func, ast.Attribute) and c.func.attr == "sort" and isinstance(c.func.value, ast.Name) and c.func.value.id == lst]
+                    if srt_ and (kwarg(srt_[0], "key") is None or "itemgetter(0)" in norm(kwarg(srt_[0], "key")) or "[0]" in norm(kwarg(srt_[0], "key"))):
+                        canon = lp_
     iterated_plain = [n for n in walk_own(m.node) if isinstance(n, (ast.For, ast.comprehension)) and _over_param(n.iter) and not any(isinstance(k, ast.Call) and isinstance(k.func, ast.Name) and k.func.id == "sorted" for k in ast.walk(n.iter)) and not any(is_within(n, c) for c in ([canon] if canon else []))]
     if raw is not None:
         col.fail(rule, m.qualname, "mapping-order-by-key-lt", f"`{norm(raw)}` orders the keys by their own `<`, which is only a partial order for frozenset keys (and tuples containing them) and raises TypeError for mixed key types: equal dicts hash differently depending on their insertion order", A.loc(raw))
